@@ -99,6 +99,8 @@ class Library:
                 and a block with new_block.key (other than old_block) already exists."""
         try:
             index = self._index_of(old_block)
+            # (the block in the library, which may be another object than the - equal - one passed)
+            old_block = self._blocks[index]
             self.remove(old_block)
         except ValueError:
             raise ValueError("Block to replace is not in library.")
